@@ -67,7 +67,7 @@ func runC16(c *core.Ctx) {
 		}
 	}
 
-	c.Doc("C16.tables", "objects[k] and boxes[k] are inserted/deleted together in one critical section", 5)
+	c.Doc("C16.tables", "objects[k] and boxes[k] are inserted/deleted together in one critical section", 4)
 	for _, fn := range fns {
 		tablesTogether(c, fn, objects, boxes, class)
 	}
@@ -117,8 +117,7 @@ func runC16(c *core.Ctx) {
 				continue
 			}
 			for i, call := range core.Calls(fn) {
-				cc := call.Common()
-				if !(cc.IsInvoke() && cc.Method.Name() == "RemoveHandler") {
+				if _, isRm := epCall(c, call, "RemoveHandler"); !isRm {
 					continue
 				}
 				n++
@@ -153,6 +152,66 @@ func tableWrites(fn *ssa.Function, fld *types.Var) []tableWrite {
 	}
 	for _, d := range dels {
 		out = append(out, tableWrite{d, d.Call.Args[1], true})
+	}
+	return out
+}
+
+// tableOp is a write to a table as a function sees it: the write itself, or
+// the call of a private helper that performs it (install(index, obj),
+// forget(index)) with the helper's parameters replaced by the arguments.
+type tableOp struct {
+	in     ssa.Instruction // in the function asked about
+	at     ssa.Instruction // the map update / delete
+	key    ssa.Value       // nil when the helper's key is not one of its parameters
+	val    ssa.Value       // stored value, nil when unknown or a delete
+	isDel  bool
+	always bool // the helper performs it on every path to its return
+}
+
+func tableOps(c *core.Ctx, fn *ssa.Function, fld *types.Var, depth int) []tableOp {
+	var out []tableOp
+	ups, dels := mapWrites(fn, fld)
+	for _, u := range ups {
+		out = append(out, tableOp{u, u, u.Key, u.Value, false, true})
+	}
+	for _, d := range dels {
+		out = append(out, tableOp{d, d, d.Call.Args[1], nil, true, true})
+	}
+	if depth >= 2 {
+		return out
+	}
+	for _, call := range core.Calls(fn) {
+		h := core.StaticCallee(call)
+		if _, plain := call.(*ssa.Call); !plain || h == nil || h == fn || h.Pkg != fn.Pkg || !isPrivateHelper(c, h) || len(h.Blocks) == 0 {
+			continue
+		}
+		args := call.Common().Args
+		subst := func(v ssa.Value) ssa.Value {
+			if v == nil {
+				return nil
+			}
+			w := core.Canon(v)
+			if mi, ok := w.(*ssa.MakeInterface); ok {
+				w = core.Canon(mi.X)
+			}
+			if p, ok := w.(*ssa.Parameter); ok && p.Parent() == h {
+				for i, q := range h.Params {
+					if q == p && i < len(args) {
+						return args[i]
+					}
+				}
+			}
+			return nil
+		}
+		for _, op := range tableOps(c, h, fld, depth+1) {
+			always := op.always
+			for _, r := range core.Returns(h) {
+				if !core.MustPassBefore(h, r, func(x ssa.Instruction) bool { return x == op.in }) {
+					always = false
+				}
+			}
+			out = append(out, tableOp{call.(ssa.Instruction), op.at, subst(op.key), subst(op.val), op.isDel, always})
+		}
 	}
 	return out
 }
@@ -241,11 +300,10 @@ func ruleRemove(c *core.Ctx, lc *core.LockCache, objects *types.Var, class core.
 	}
 	held, _ := lc.Get(secFn).HeldAt(lk, class, true)
 	c.Check(held, rule, "bus.serviceImpl.Remove/lookup", lk.Pos(), "lookup under the exclusive lock", "the object is looked up without the exclusive lock: two concurrent Remove calls both find it and terminate it twice")
-	_, dels := mapWrites(secFn, objects)
-	var del *ssa.Call
-	for _, d := range dels {
-		if core.Canon(d.Call.Args[1]) == secID && core.Guarded(secFn, d, core.IsTrue(okOf(lk))) && sameSection(secFn, lk, d, class) {
-			del = d
+	var del ssa.Instruction
+	for _, d := range tableOps(c, secFn, objects, 0) {
+		if d.isDel && d.always && d.key != nil && core.Canon(d.key) == secID && core.Guarded(secFn, d.in, core.IsTrue(okOf(lk))) && sameSection(secFn, lk, d.in, class) {
+			del = d.in
 		}
 	}
 	c.Check(del != nil, rule, "bus.serviceImpl.Remove/delete", fn.Pos(), "delete(objects, id) on the found edge, in the lookup's critical section",
@@ -342,32 +400,24 @@ func ruleUniqueID(c *core.Ctx, objects *types.Var) {
 	// replacing its placeholder) re-use the key that was reserved
 	bad := ""
 	reserved := map[ssa.Value]bool{}
-	for _, up := range stores {
+	// storeOK: the store seen in f at instruction at (the map update, or the call of
+	// the private helper that performs it) under key is behind a failed lookup of key
+	var storeOK func(f *ssa.Function, at ssa.Instruction, key ssa.Value, depth int) bool
+	storeOK = func(f *ssa.Function, at ssa.Instruction, key ssa.Value, depth int) bool {
 		var ms []core.EdgeMatcher
 		for _, lk := range lookups {
-			if core.SameValue(lk.Index, up.Key) || (lk.Parent() != up.Parent() && sameParamPosition(lk.Index, up.Key)) {
+			if core.SameValue(lk.Index, key) || (lk.Parent() != f && sameParamPosition(lk.Index, key)) {
 				ms = append(ms, core.IsFalse(okOf(lk)))
 			}
 		}
-		if len(ms) > 0 && guardedUp(c, up.Parent(), up, core.AnyOf(ms...)) {
-			reserved[core.Canon(up.Key)] = true
-			continue
+		if len(ms) > 0 && guardedUp(c, f, at, core.AnyOf(ms...)) {
+			reserved[core.Canon(key)] = true
+			return true
 		}
-		// the key as the caller sees it when the store sits in a private helper
-		// (reserve(index), settle(index, obj, err)); and a key chosen by a helper that only
-		// returns identifiers it looked up and found free (index = s.pickIndex())
-		key := core.Canon(up.Key)
-		if p, isParam := key.(*ssa.Parameter); isParam && isPrivateHelper(c, up.Parent()) {
-			all, _ := c.CallSites()
-			if sites := all[up.Parent()]; len(sites) == 1 {
-				for i, q := range up.Parent().Params {
-					if q == p && i < len(sites[0].Common().Args) {
-						key = core.Canon(sites[0].Common().Args[i])
-					}
-				}
-			}
-		}
-		if cr, _ := core.CallResult(key); cr != nil {
+		// a key chosen by a helper that only returns identifiers it looked up and found
+		// free (index = s.pickIndex(), index = s.reserve())
+		k := core.Canon(key)
+		if cr, _ := core.CallResult(k); cr != nil {
 			if h := cr.Call.StaticCallee(); h != nil && isPrivateHelper(c, h) && len(h.Blocks) > 0 {
 				free := true
 				nret := 0
@@ -389,25 +439,51 @@ func ruleUniqueID(c *core.Ctx, objects *types.Var) {
 					}
 				}
 				if free && nret > 0 {
-					reserved[core.Canon(up.Key)] = true
-					reserved[key] = true
-					continue
+					reserved[k] = true
+					return true
 				}
 			}
 		}
-		if reserved[core.Canon(up.Key)] || reserved[key] {
-			continue
+		if reserved[k] {
+			return true
 		}
-		again := false
-		for k := range reserved {
-			if core.SameValue(k, up.Key) || core.SameValue(k, key) {
-				again = true
+		for r := range reserved {
+			if core.SameValue(r, key) {
+				return true
 			}
 		}
-		if again {
-			continue
+		// the key as each caller sees it when the store sits in a private helper
+		// (reserve(index), settle(index, obj, err), install(index, obj))
+		if p, isParam := k.(*ssa.Parameter); isParam && p.Parent() == f && isPrivateHelper(c, f) && depth < 3 {
+			all, _ := c.CallSites()
+			idx := -1
+			for i, q := range f.Params {
+				if q == p {
+					idx = i
+				}
+			}
+			n := 0
+			for _, cs := range all[f] {
+				if c.IsTestFile(cs.Parent()) {
+					continue
+				}
+				n++
+				if idx < 0 || idx >= len(cs.Common().Args) || !storeOK(cs.Parent(), cs.(ssa.Instruction), cs.Common().Args[idx], depth+1) {
+					return false
+				}
+			}
+			return n > 0
 		}
-		bad = "Add can store an object under an identifier that was not looked up and found free (at " + c.Pos(up.Pos()) + "): an identifier in use — 0, once the object 1 has been removed — is handed out again, the previous object is silently replaced and never terminated"
+		return false
+	}
+	// stores behind their own failed lookup first: they reserve the key for the others
+	for pass := 0; pass < 2; pass++ {
+		bad = ""
+		for _, up := range stores {
+			if !storeOK(up.Parent(), up, up.Key, 0) {
+				bad = "Add can store an object under an identifier that was not looked up and found free (at " + c.Pos(up.Pos()) + "): an identifier in use — 0, once the object 1 has been removed — is handed out again, the previous object is silently replaced and never terminated"
+			}
+		}
 	}
 	c.Check(bad == "", rule, "bus.serviceImpl.Add/store", stores[0].Pos(), "an id is stored only after a lookup of that id failed", bad)
 }
@@ -453,8 +529,7 @@ func ruleSubscribersTold(c *core.Ctx) {
 		if core.IsCallTo(call, sendT) {
 			st = call.(ssa.Instruction)
 		}
-		cc := call.Common()
-		if cc.IsInvoke() && cc.Method.Name() == "RemoveHandler" {
+		if _, isRm := epCall(c, call, "RemoveHandler"); isRm {
 			rm = call.(ssa.Instruction)
 		}
 	}
@@ -707,41 +782,51 @@ func ruleActivationErrorKept(c *core.Ctx, rule string, objects *types.Var) {
 				v = core.Canon(mi.X)
 			}
 			stored := v == ssa.Value(obj)
+			ok := false
 			if p, isParam := v.(*ssa.Parameter); isParam && f != fn {
-				// a helper handed the object (settle(index, obj, err))
+				// a helper handed the object (settle(index, obj, err), install(index, obj)): at
+				// every call that passes the object, the call itself is made only where the
+				// activation succeeded, or the helper stores only where the error it is handed
+				// (Activate's) is nil
 				all, _ := c.CallSites()
+				ok = true
 				for _, cs := range all[f] {
+					passes := false
 					for i, q := range f.Params {
 						if q == p && i < len(cs.Common().Args) && core.Canon(cs.Common().Args[i]) == ssa.Value(obj) {
-							stored = true
+							passes = true
 						}
+					}
+					if !passes {
+						continue
+					}
+					stored = true
+					siteOK := cs.Parent() == fn && core.Guarded(fn, cs.(ssa.Instruction), core.Eq(isErr, core.IsNilConst))
+					for _, q := range f.Params {
+						if siteOK || !core.IsErrorType(q.Type()) {
+							continue
+						}
+						qq := q
+						isP := func(v ssa.Value) bool { return core.Canon(v) == ssa.Value(qq) }
+						if !core.Guarded(f, up, core.Eq(isP, core.IsNilConst)) {
+							continue
+						}
+						for i, q2 := range f.Params {
+							if q2 == qq && i < len(cs.Common().Args) && flowsFrom(cs.Common().Args[i], act, 0) {
+								siteOK = true
+							}
+						}
+					}
+					if !siteOK {
+						ok = false
 					}
 				}
 			}
 			if !stored {
 				continue
 			}
-			ok := false
 			if f == fn {
 				ok = core.Guarded(fn, up, core.Eq(isErr, core.IsNilConst))
-			} else {
-				// in the helper: guarded by its error parameter being nil, the call passing Activate's error
-				for _, q := range f.Params {
-					if core.IsErrorType(q.Type()) {
-						qq := q
-						isP := func(v ssa.Value) bool { return core.Canon(v) == ssa.Value(qq) }
-						if core.Guarded(f, up, core.Eq(isP, core.IsNilConst)) {
-							all, _ := c.CallSites()
-							for _, cs := range all[f] {
-								for i, q2 := range f.Params {
-									if q2 == qq && i < len(cs.Common().Args) && flowsFrom(cs.Common().Args[i], act, 0) {
-										ok = true
-									}
-								}
-							}
-						}
-					}
-				}
 			}
 			if !ok {
 				bad = "the object is stored in the table (at " + c.Pos(up.Pos()) + ") on a path where its activation may have failed: a refused object becomes callable, and is terminated later although it was never active"
